@@ -295,22 +295,28 @@ Definition cells_of (p : prop) : list cell :=
 (* CSVTracksBuilder.required_features *)
 Definition csv_required : list Z := [k_time; k_id; k_parent].
 
-(* if "id" in df.columns and not df["id"].is_unique: raise ValueError     (RAW column named "id") *)
-Definition raw_id_unique (t : table) : bool :=
-  if memz k_id (t_cols t) then nodup_cells (column t k_id) else true.
+(* the empty string "" has the reserved code 0 *)
+Definition empty_str : cell := CStr 0.
+(* _ensure_integer_ids: unknown = parents.notna() & ~parents.isin(id_mapping) & ~parents.isin(["", -1]) *)
+Definition is_unknown (m : list (cell * Z)) (p : cell) : bool :=
+  negb (cell_eqb p CNone) && negb (memc p (map fst m)) && negb (cell_eqb p empty_str) && negb (cell_eqb p (CInt (-1))).
 
 (* CSVTracksBuilder.build for a non-empty name map *)
 Definition import_csv_body (t : table) (ityp trk_ok lin_ok : bool) (nm0 : name_map) : outcome graph :=
   let ndim0 := ndim_of_map nm0 in
   let nm := preprocess nm0 in
   if negb (validate_name_map csv_required (t_cols t) ndim0 nm) then ValueErr
-  else if negb (raw_id_unique t) then ValueErr
   else
     let df := rename (table_props t) nm in
+    (* if "id" in df.columns and not df["id"].is_unique: raise ValueError      (the MAPPED id column) *)
+    if negb (match lookup k_id df with Some pi => nodup_cells (cells_of pi) | None => true end) then ValueErr
+    else
     match lookup k_id df, lookup k_parent df with
     | Some pi, Some pp =>
-      (* _ensure_integer_ids: one mapping, applied to id and parent_id *)
+      (* _ensure_integer_ids: one mapping, applied to id and parent_id; a parent that is neither empty
+         (NaN / "" / -1) nor an id raises ValueError *)
       let m := id_mapping (cells_of pi) in
+      if negb ityp && existsb (is_unknown m) (cells_of pp) then ValueErr else
       let idc := if ityp then cells_of pi else map (map_cell m) (cells_of pi) in
       let parc := if ityp then cells_of pp else map (map_cell m) (cells_of pp) in
       (* if self.ndim is None: from the (preprocessed) pos mapping, or 4 if "z" in df.columns else 3 *)
